@@ -474,3 +474,23 @@ func S2e(tier string) *Scenario {
 	bud := Budget{"update": 1, "bid": 3, "mod": 1, "block": 5}
 	return scenFrom("S2e-batch-early-release", cfg, pre, bud, al, nil)
 }
+
+// withMsgAddAllow offers MsgAddAllowedBidder (signed by the would-be bidder) in every state, for
+// every bidder of the alphabet plus an outsider.
+func (s *Scenario) withMsgAddAllow() *Scenario {
+	if s.al != nil {
+		s.al.MsgAddAllow = true
+		has := false
+		for _, b := range s.al.Bidders {
+			if b == "out1" {
+				has = true
+			}
+		}
+		if !has {
+			s.al.Bidders = append(s.al.Bidders, "out1")
+		}
+		s.Budget["msgallow"] = 1
+		s.Name += "+msgallow"
+	}
+	return s
+}
